@@ -97,6 +97,28 @@ pub fn c14(tier: &str, seed: u64) -> Vec<Case> {
             }
             if let Ok(b) = if i % 2 == 0 { p.build_bytes_vec_compressed() } else { p.build_bytes_vec() } { d.push((b, "announcement".into())); }
         }
+        // records of the rare types with their RDATA cut at every length (RDLENGTH consistent), sent as a
+        // probe and as a response under the watched service
+        for kind in [34usize, 34, 34, 34, 34, 34, 27, 38, 25, 13, 10, 19, 21, 26, 24, 36] {
+            let mut rr = g.rr_of(kind);
+            rr.name = mk_name(&{ let mut f = vec![b"peer".to_vec()]; f.extend(service.clone()); f });
+            let mut p = Packet::new_reply(0);
+            p.answers.push(rr);
+            let bytes = match p.build_bytes_vec() { Ok(b) => b, Err(_) => continue };
+            if bytes.len() > 500 { continue; }
+            if let Some(w) = crate::walker::walk(&bytes) {
+                let e = &w.sections[0][0];
+                for k in 0..e.rd_len {
+                    for flags in [0x84u8, 0x00] {
+                        let mut m = bytes[..e.rd_start + k].to_vec();
+                        m[e.rd_start - 2..e.rd_start].copy_from_slice(&(k as u16).to_be_bytes());
+                        m[2] = flags;
+                        if flags == 0 { m[5] = 0; m[7] = 0; m[9] = 1; } // a probe carries it in the authority section
+                        d.push((m, "rdata-cut".into()));
+                    }
+                }
+            }
+        }
         // OPT options whose length field is at the top of the 16-bit range, with an RDLENGTH that fits the
         // datagram, one that does not, and the largest
         for olen in [0x7FFFu16, 0x8000, 0xFFFB, 0xFFFC, 0xFFFD, 0xFFFE, 0xFFFF] { for flags in [0u8, 0x84] { for rdlen in [4u16, 8, 0xFFFF] {
@@ -145,6 +167,31 @@ pub fn c14(tier: &str, seed: u64) -> Vec<Case> {
         if out.contains("unparseable") { c = c.fail("reply-unparseable", "a reply larger than 16 KiB is not a parseable DNS message".into()); }
         match &res { Ok(Some(b)) if b.len() > 16600 => { c = c.tag("replied"); if let Ok(rp) = Packet::parse(b) { if rp.answers.len() != 321 || rp.additional_records.len() != 2 || rp.additional_records.iter().any(|r| r.name != t) { c = c.fail("reply-differs", "the records of a reply larger than 16 KiB do not read back as registered".into()); } } }
             Ok(_) => { c = c.fail("big-reply-not-built", "the large reply was not produced".into()); } Err(_) => {} }
+        v.push(c);
+    }
+    // a store holding a record in a state the public fields allow but no parser produces (NSEC windows
+    // out of order / repeated); the reply to a question that selects it must still be a parseable message
+    for k in 0..(if thorough { 60 } else { 12 }) {
+        let owner = mk_name(&[b"nsec".to_vec(), b"local".to_vec()]);
+        let n = r.range(2, 4);
+        let mut maps: Vec<simple_dns::rdata::TypeBitMap> = (0..n).map(|_| { let l = r.range(1, 4) as usize; simple_dns::rdata::TypeBitMap { window_block: r.below(6) as u8, bitmap: r.bytes(l).into() } }).collect();
+        // distinct windows (a window may appear once, RFC 4034 4.1.2), held in descending or rotated order
+        maps.sort_by_key(|m| std::cmp::Reverse(m.window_block)); maps.dedup_by_key(|m| m.window_block);
+        if k % 2 == 1 && maps.len() > 1 { maps.rotate_left(1); }
+        let rec = ResourceRecord::new(owner.clone(), CLASS::IN, 120, RData::NSEC(simple_dns::rdata::NSEC { next_name: owner.clone(), type_bit_maps: maps }));
+        let mut mgr: ResourceRecordManager<'static> = ResourceRecordManager::new();
+        mgr.add_authoritative_resource(rec.clone());
+        let mut q = Packet::new_query(9);
+        q.questions.push(Question::new(owner.clone(), if k % 3 == 0 { QTYPE::ANY } else { TYPE::NSEC.into() }, CLASS::IN.into(), false));
+        let d = q.build_bytes_vec().unwrap();
+        let mref = &mgr;
+        let dd = d.clone();
+        watch("unnormalised store value");
+        let res = std::panic::catch_unwind(std::panic::AssertUnwindSafe(|| responder_step(mref, &dd)));
+        let out = match &res { Ok(b) => format!("ok {}", reply_text(b)), Err(_) => "panic".to_string() };
+        let mut c = Case::oracle_only().tag("unnormalised-store-value").tag("responder");
+        if out == "panic" { c = c.fail("responder-panic", "the responder's handling of a datagram panicked".into()); }
+        if out.contains("unparseable") { c = c.fail("reply-unparseable", "the reply carrying an NSEC record whose windows are held out of order is not a parseable DNS message".into()); }
         v.push(c);
     }
     let mut it = 0usize;
@@ -493,6 +540,13 @@ pub fn c15(tier: &str, seed: u64) -> Vec<Case> {
             for rec in records { p.answers.push(rec); }
             if r.chance(1, 3) { p.answers.push(ResourceRecord::new(mk_name(&[b"other".to_vec(), b"_http".to_vec(), b"_tcp".to_vec(), b"local".to_vec()]), CLASS::IN, 120, RData::A(A { address: 77 }))); }
             if r.chance(1, 3) { p.additional_records.push(ResourceRecord::new(own.clone(), CLASS::IN, 120, RData::A(A { address: 66 }))); }
+            // records of a host and of another service's instance riding along in the additional section
+            if r.chance(1, 3) {
+                p.additional_records.push(ResourceRecord::new(mk_name(&[b"host".to_vec(), b"local".to_vec()]), CLASS::IN, 120, RData::A(A { address: 0x0A090909 })));
+                let foreign = mk_name(&[b"other".to_vec(), b"_http".to_vec(), b"_tcp".to_vec(), b"local".to_vec()]);
+                p.additional_records.push(ResourceRecord::new(foreign.clone(), CLASS::IN, 120, RData::SRV(simple_dns::rdata::SRV { priority: 0, weight: 0, port: 9999, target: foreign.clone() })));
+                p.additional_records.push(ResourceRecord::new(foreign, CLASS::IN, 120, RData::TXT(simple_dns::rdata::TXT::new().with_string("other=yes").unwrap())));
+            }
             if r.chance(1, 3) { p.answers.push(ResourceRecord::new(service.clone(), CLASS::IN, 120, RData::PTR(PTR(full.clone())))); }
             // some peers first say goodbye (the same records with TTL 0) and then announce: what was
             // received last counts
